@@ -143,6 +143,26 @@ def sites(chk):
                 chk.broken("correspondence: the client requested %s for role %r, the model's file name is %r" % (log[-1:], nm, wf), desc)
             if ("ds/" + wf) not in listing:
                 chk.broken("correspondence: the datastore holds %s, the model's file name for role %r is %r" % (sorted(listing), nm, wf), desc)
+        # a delegated role bearing the name of a top-level role would be fetched, stored and cached under that role's
+        # file name: it must be refused wherever it sits in the delegation tree
+        rcases, rinfo = [], []
+        for nm in ("root", "snapshot", "targets", "timestamp"):
+            for depth in (1, 2, 3):
+                for cs in (False, True):
+                    s = scen.Scen()
+                    r, files = scen.simple_repo(s, cs=cs, root=s.root(cs=cs), delegate=nm, delegate_depth=depth)
+                    sent = os.path.join(base, "r%d" % len(rcases))
+                    os.makedirs(os.path.join(sent, "ds"))
+                    s.cycle(r, files)
+                    rcases.append({"p": 15, "docs": s.docs, "cycle": s.cycles[0], "datastore": os.path.join(sent, "ds")})
+                    rinfo.append((nm, depth, cs))
+        for (nm, depth, cs), r in zip(rinfo, C.run_impl(rcases)):
+            chk.seen(["reserved", nm, depth, cs], True)
+            chk.count("site-reserved-name")
+            if isinstance(r, list) and len(r) == 3 and r[0][0] == 0:
+                chk.violation("a delegated role named %r (depth %d) was loaded: its metadata is fetched and stored as "
+                              "%s.json, the file of the top-level role" % (nm, depth, nm),
+                              {"role": nm, "depth": depth, "consistent_snapshot": cs, "result": r})
         # the cache: load from a directory, cache_metadata with root chain, list both trees, load the copy
         ccases, cinfo = [], []
         for nm in names:
